@@ -409,7 +409,13 @@ def r8(ctx, sc):
         setups = []
         for x, gs in setup_stores(sc, yylex)[0]: setups += (gs or [x])
     marks = sc.calls(yylex, PRE_MARK)
-    if not marks: rep.broken('C06.R8: the pre-action of probe %s does not appear in yylex' % v.name)
+    if not marks:
+        # flex accepted %option pre-action and produced a scanner that compiles, but the code is in no rule arm: the option
+        # is silently without effect in a scanner that has ^ rules (the set-up macro carries both the BOL update and the pre-action)
+        rep.fail('C06.R8', 'C06.R8:%s:yylex:pre-action-dropped-with-bol-rules' % sc.skel, fwhere(yylex),
+                 'the %%option pre-action code of probe %s is called in no rule arm of yylex although the scanner was generated without complaint: '
+                 'with a ^ rule in the scanner the rule set-up performs only the beginning-of-line update' % v.name, variant=v.describe())
+        return 1
     by_label = {}
     for c, l in sw.cases:
         if 1 <= c < EOB: by_label.setdefault(l, []).append(c)
